@@ -462,6 +462,197 @@ func initLib() {
 	bigUn("Set", func(x Term) Term { return x })
 	bigUn("Neg", func(x Term) Term { return mk("(- "+x.S+")", sortInt) })
 	bigUn("Abs", func(x Term) Term { return mk(fmt.Sprintf("(ite (>= %s 0) %s (- %s))", x.S, x.S, x.S), sortInt) })
+	// ---- math/big.Float: value as Real, precision and rounding mode tracked per object.
+	// Rounding to prec bits in mode m is an envelope around the exact value p (never IEEE bit-blasting):
+	//   ToNearestEven/Away(0,1): |r-p| <= |p|*2^-prec      ToZero(2): |p|*(1-2^(1-prec)) <= |r| <= |p|
+	//   AwayFromZero(3):         |p| <= |r| <= |p|*(1+2^(1-prec))      (same sign; exact when p is 0)
+	//   ToNegativeInf/ToPositiveInf(4,5): |r-p| <= |p|*2^(1-prec)
+	fPfx := "(*math/big.Float)."
+	fAux := func(vc *VC, st *State, which string) (string, Term) {
+		comp := "X:big.Float." + which
+		vc.registerComp(comp, sortArray(sortRef, sortInt))
+		return comp, vc.heapGet(st.heap, comp)
+	}
+	fGet := func(vc *VC, st *State, p *Place, which string) Term {
+		_, h := fAux(vc, st, which)
+		return tSelect(h, vc.refOf(p))
+	}
+	fSet := func(vc *VC, st *State, p *Place, which string, v Term) {
+		comp, h := fAux(vc, st, which)
+		st.heap.known[comp] = vc.define(comp, tStore(h, vc.refOf(p), v))
+		vc.written[comp] = true
+	}
+	pow2neg := func(n int64) string { // 2^-n as real literal
+		return fmt.Sprintf("(/ 1.0 %s.0)", new(bigInt).Lsh(newBig(1), uint(n)).String())
+	}
+	roundTo := func(vc *VC, st *State, exact Term, prec Term, mode Term) Term {
+		r := vc.declFresh("frnd", sortReal)
+		pk, okp := litValue(prec)
+		mk_, okm := litValue(mode)
+		ap, ar := absReal(exact.S), absReal(r.S)
+		if !okp || !okm || pk <= 0 || pk > 4096 {
+			// unknown precision or mode: only sign preservation is known
+			vc.assume(st, mk(fmt.Sprintf("(and (=> (= %s 0.0) (= %s 0.0)) (=> (> %s 0.0) (>= %s 0.0)) (=> (< %s 0.0) (<= %s 0.0)))", exact.S, r.S, exact.S, r.S, exact.S, r.S), sortBool))
+			return r
+		}
+		var env string
+		switch mk_ {
+		case 0, 1:
+			env = fmt.Sprintf("(and (<= (* %s (- 1.0 %s)) %s) (<= %s (* %s (+ 1.0 %s))))", ap, pow2neg(pk), ar, ar, ap, pow2neg(pk))
+		case 2:
+			env = fmt.Sprintf("(and (<= (* %s (- 1.0 %s)) %s) (<= %s %s))", ap, pow2neg(pk-1), ar, ar, ap)
+		case 3:
+			env = fmt.Sprintf("(and (<= %s %s) (<= %s (* %s (+ 1.0 %s))))", ap, ar, ar, ap, pow2neg(pk-1))
+		default:
+			env = fmt.Sprintf("(and (<= (* %s (- 1.0 %s)) %s) (<= %s (* %s (+ 1.0 %s))))", ap, pow2neg(pk-1), ar, ar, ap, pow2neg(pk-1))
+		}
+		sign := fmt.Sprintf("(and (=> (= %s 0.0) (= %s 0.0)) (=> (> %s 0.0) (> %s 0.0)) (=> (< %s 0.0) (< %s 0.0)))", exact.S, r.S, exact.S, r.S, exact.S, r.S)
+		vc.assume(st, mk("(and "+env+" "+sign+")", sortBool))
+		return r
+	}
+	// big.ParseFloat(s, base, prec, mode): the decimal value of s (uninterpreted dec-val) rounded to prec/mode
+	libTable["math/big.ParseFloat"] = func(vc *VC, fr *Frame, st *State, a []Val, at []types.Type, rt types.Type, pos token.Pos) Val {
+		vc.usedLib("big.ParseFloat (value of the numeral rounded to prec bits in the given mode)")
+		vc.needDecVal, vc.needStr = true, true
+		tup := rt.(*types.Tuple)
+		fv := vc.newObject(st, derefType(tup.At(0).Type()), mk("0.0", sortReal))
+		errv := vc.freshVal(st, "parse!err", tup.At(2).Type())
+		basev := vc.freshVal(st, "parse!base", tup.At(1).Type())
+		ok := tEq(errv.T, mk("(mk-iface 0 0)", sortIface))
+		prec := a[2].T
+		if vc.mode == ModeMath {
+			exact := vc.decVal(a[0].T, "val")
+			r := roundTo(vc, st, exact, prec, a[3].T)
+			vc.storePlace(st, fv.P, r)
+			fSet(vc, st, fv.P, "prec", prec)
+			fSet(vc, st, fv.P, "mode", a[3].T)
+			// a syntactically valid numeral parses; validity is an uninterpreted predicate of the string
+			vc.assume(st, tEq(ok, vc.decVal(a[0].T, "valid")))
+		}
+		// (on error the real function returns a nil *Float; callers return before using it)
+		_ = ok
+		return Val{Tup: []Val{fv, basev, errv}}
+	}
+	libTable[fPfx+"SetInt"] = func(vc *VC, fr *Frame, st *State, a []Val, at []types.Type, rt types.Type, pos token.Pos) Val {
+		vc.usedLib("big.Float.SetInt")
+		vc.nilChecks(fr, st, pos, a...)
+		x := vc.ld(st, a[1])
+		// prec 0 => precision becomes max(bitlen, 64): exact below 2^64; otherwise rounded to the set precision
+		p := fGet(vc, st, a[0].P, "prec")
+		if lv, ok := vc.bigLit(x); ok {
+			// a literal below 2^63 is represented exactly whatever the precision is (>= 64 after SetInt)
+			vc.storePlace(st, a[0].P, mk(fmt.Sprintf("%d.0", lv), sortReal))
+			fSet(vc, st, a[0].P, "prec", tIte(tEq(p, mk("0", sortInt)), mk("64", sortInt), p))
+			return a[0]
+		}
+		exact := mk("(to_real "+x.S+")", sortReal)
+		r := vc.declFresh("fset", sortReal)
+		vc.assume(st, tImp(tEq(p, mk("0", sortInt)), tEq(r, exact)))
+		vc.assume(st, tImp(mk(fmt.Sprintf("(and (<= (- 18446744073709551615) %s) (<= %s 18446744073709551615))", x.S, x.S), sortBool), tEq(r, exact)))
+		vc.storePlace(st, a[0].P, r)
+		fSet(vc, st, a[0].P, "prec", tIte(tEq(p, mk("0", sortInt)), mk("64", sortInt), p))
+		return a[0]
+	}
+	libTable[fPfx+"SetPrec"] = func(vc *VC, fr *Frame, st *State, a []Val, at []types.Type, rt types.Type, pos token.Pos) Val {
+		vc.usedLib("big.Float.SetPrec")
+		vc.nilChecks(fr, st, pos, a[0])
+		cur := vc.ld(st, a[0])
+		r := roundTo(vc, st, cur, a[1].T, fGet(vc, st, a[0].P, "mode"))
+		vc.storePlace(st, a[0].P, r)
+		fSet(vc, st, a[0].P, "prec", a[1].T)
+		return a[0]
+	}
+	libTable[fPfx+"SetMode"] = func(vc *VC, fr *Frame, st *State, a []Val, at []types.Type, rt types.Type, pos token.Pos) Val {
+		vc.usedLib("big.Float.SetMode")
+		vc.nilChecks(fr, st, pos, a[0])
+		fSet(vc, st, a[0].P, "mode", a[1].T)
+		return a[0]
+	}
+	libTable[fPfx+"SetFloat64"] = func(vc *VC, fr *Frame, st *State, a []Val, at []types.Type, rt types.Type, pos token.Pos) Val {
+		vc.usedLib("big.Float.SetFloat64")
+		vc.nilChecks(fr, st, pos, a[0])
+		p := fGet(vc, st, a[0].P, "prec")
+		// exact when prec is 0 (becomes 53) or >= 53
+		r := vc.declFresh("fset", sortReal)
+		vc.assume(st, tImp(mk(fmt.Sprintf("(or (= %s 0) (>= %s 53))", p.S, p.S), sortBool), tEq(r, a[1].T)))
+		vc.storePlace(st, a[0].P, r)
+		fSet(vc, st, a[0].P, "prec", tIte(tEq(p, mk("0", sortInt)), mk("53", sortInt), p))
+		return a[0]
+	}
+	libTable[fPfx+"Mul"] = func(vc *VC, fr *Frame, st *State, a []Val, at []types.Type, rt types.Type, pos token.Pos) Val {
+		vc.usedLib("big.Float.Mul (exact product rounded to the receiver's precision and mode)")
+		vc.nilChecks(fr, st, pos, a...)
+		x, y := vc.ld(st, a[1]), vc.ld(st, a[2])
+		zp := fGet(vc, st, a[0].P, "prec")
+		xp, yp := fGet(vc, st, a[1].P, "prec"), fGet(vc, st, a[2].P, "prec")
+		eff := vc.define("fprec", tIte(tEq(zp, mk("0", sortInt)), tIte(mk(app(">=", xp, yp), sortBool), xp, yp), zp))
+		exact := vc.define("fprod", mk(app("*", x, y), sortReal))
+		// the envelope needs literal precision: resolve through definitions when possible
+		precLit := eff
+		if d, ok := vc.defs[eff.S]; ok {
+			precLit = mk(d, sortInt)
+		}
+		r := roundTo(vc, st, exact, vc.simplifyIte(precLit), vc.simplifyIte(fGet(vc, st, a[0].P, "mode")))
+		vc.storePlace(st, a[0].P, r)
+		fSet(vc, st, a[0].P, "prec", eff)
+		return a[0]
+	}
+	// Int truncates toward zero
+	libTable[fPfx+"Int"] = func(vc *VC, fr *Frame, st *State, a []Val, at []types.Type, rt types.Type, pos token.Pos) Val {
+		vc.usedLib("big.Float.Int (truncation toward zero)")
+		vc.nilChecks(fr, st, pos, a[0])
+		x := vc.ld(st, a[0])
+		tr := mk(fmt.Sprintf("(ite (>= %s 0.0) (to_int %s) (- (to_int (- %s))))", x.S, x.S, x.S), sortInt)
+		tup := rt.(*types.Tuple)
+		var res Val
+		if a[1].P != nil && !(a[1].P.Kind == BPtr && a[1].P.Ref.S == "0") {
+			// z given: the result is stored there and z is returned (a nil z allocates; only the literal nil is recognised)
+			vc.storePlace(st, a[1].P, vc.define("ftrunc", tr))
+			res = a[1]
+		} else {
+			res = vc.newObject(st, derefType(tup.At(0).Type()), vc.define("ftrunc", tr))
+		}
+		return Val{Tup: []Val{res, vc.freshVal(st, "facc", tup.At(1).Type())}}
+	}
+	// (*big.Int).Exp(x, y, nil) with a small literal exponent
+	libTable[bigPfx+"Exp"] = func(vc *VC, fr *Frame, st *State, a []Val, at []types.Type, rt types.Type, pos token.Pos) Val {
+		vc.usedLib("big.Int.Exp")
+		vc.nilChecks(fr, st, pos, a[0], a[1], a[2])
+		x, y := vc.ld(st, a[1]), vc.ld(st, a[2])
+		r := vc.declFresh("bigexp", sortInt)
+		// unrolled for exponents 0..40 (larger or modular: unconstrained)
+		isNilMod := mk("true", sortBool)
+		if len(a) > 3 && a[3].P != nil {
+			isNilMod = tEq(vc.refOf(a[3].P), mk("0", sortRef))
+		}
+		// both operands literal (package constants, big.NewInt(c)): compute the power directly
+		if bv, okb := vc.bigLit(x); okb {
+			if ev, oke := vc.bigLit(y); oke && ev >= 0 && ev <= 400 && isNilMod.S == "true" {
+				p := new(bigInt).Exp(newBig(bv), newBig(ev), nil)
+				vc.storePlace(st, a[0].P, intLit(p))
+				return a[0]
+			}
+		}
+		if bv, okb := vc.bigLit(x); okb && isNilMod.S == "true" {
+			// literal base, symbolic exponent: a table of constants (no nonlinear terms)
+			for k := int64(0); k <= 40; k++ {
+				p := new(bigInt).Exp(newBig(bv), newBig(k), nil)
+				vc.assume(st, tImp(tEq(y, mk(fmt.Sprint(k), sortInt)), tEq(r, intLit(p))))
+			}
+			vc.storePlace(st, a[0].P, r)
+			return a[0]
+		}
+		xb := vc.define("bigexp!b", mk("(+ 0 "+x.S+")                                                  ", sortInt))
+		yb := vc.define("bigexp!e", mk("(+ 0 "+y.S+")                                                  ", sortInt))
+		acc := mk("1", sortInt)
+		for k := 0; k <= 40; k++ {
+			vc.assume(st, tImp(tAnd(isNilMod, tEq(yb, mk(fmt.Sprint(k), sortInt))), tEq(r, acc)))
+			acc = vc.define("bigexp!p", mk(fmt.Sprintf("(* %s %s)                                                  ", acc.S, xb.S), sortInt))
+		}
+		vc.storePlace(st, a[0].P, r)
+		return a[0]
+	}
+
 	// ---- math/big.Rat (exact rationals as Real)
 	ratPfx := "(*math/big.Rat)."
 	ratSet := func(name string, f func(vc *VC, st *State, a []Val) Term) {
@@ -628,6 +819,7 @@ func (vc *VC) newObject(st *State, t types.Type, v Term) Val {
 	comp := vc.ptrComp(t)
 	p := &Place{Kind: BPtr, Comp: comp, Ref: ref, Root: t, Typ: t}
 	vc.setRoot(st, p, v)
+	vc.initAux(st, t, ref)
 	return Val{P: p}
 }
 
@@ -649,6 +841,9 @@ func (vc *VC) preludeText() string {
 	}
 	if vc.needStr {
 		b.WriteString("(declare-sort Str 0)\n")
+		if vc.needDecVal {
+			b.WriteString("(declare-fun dec-val (Str) Real)\n(declare-fun dec-valid (Str) Bool)\n")
+		}
 		b.WriteString("(declare-fun str-len (Str) " + is + ")\n")
 		if vc.mode == ModeBV {
 			b.WriteString("(declare-fun str-at (Str (_ BitVec 64)) (_ BitVec 8))\n")
@@ -693,4 +888,22 @@ func (vc *VC) libPrelude() string {
 		b.WriteString("(define-fun wts-byte ((z (_ BitVec 256)) (i (_ BitVec 64))) (_ BitVec 8) ((_ extract 7 0) (bvlshr z (bvmul (_ bv8 256) ((_ zero_extend 192) i)))))\n")
 	}
 	return b.String()
+}
+
+// bigLit: the literal value of a big.Int term when it is syntactically determined (a literal, or a load of a
+// package constant / freshly built big.NewInt(c) through stores to provably different references).
+func (vc *VC) bigLit(t Term) (int64, bool) {
+	s := vc.resolve(t.S)
+	if v, ok := litValue(mk(s, nil)); ok {
+		return v, true
+	}
+	if strings.HasPrefix(s, "(select ") {
+		parts := splitSexp(s[1 : len(s)-1])
+		if len(parts) == 3 && strings.HasPrefix(parts[1], "|P:math/big.Int!e") {
+			if k, ok := vc.bigConsts[parts[2]]; ok {
+				return k, true
+			}
+		}
+	}
+	return 0, false
 }
